@@ -1309,6 +1309,8 @@ class Project:
         """
         if job_ids is None:
             job_ids = self._find_job_ids()
+        else:
+            job_ids = list(job_ids)
 
         # Load internal cache from all available external sources.
         self._read_cache()
@@ -1367,6 +1369,10 @@ class Project:
                             f"Unable to force init job with id '{job_id}': '{error2}'."
                         )
                         corrupted.append(job_id)
+        if corrupted and len(corrupted) < len(job_ids):
+            # Some jobs were repaired, which may have freed the correct location
+            # of others (a chain of misnamed directories): try those again.
+            return self.repair(corrupted)
         if corrupted:
             raise JobsCorruptedError(corrupted)
 
